@@ -503,7 +503,70 @@ func checkC01(res *Result) {
 				}
 				return true
 			})
-			res.check(len(calls) == 2 && rangeOverList, "C01-R4", pm.G.Dir, S.pos(pd), "a list and a scalar are read through the same element reader", fmt.Sprintf("%d element-reader calls, list loop: %v", len(calls), rangeOverList))
+			okR4 := len(calls) == 2 && rangeOverList
+			why4 := fmt.Sprintf("%d element-reader calls, list loop: %v", len(calls), rangeOverList)
+			if !okR4 {
+				// other statement forms: (list) a reader call on the loop variable of a range over a
+				// []interface{}; (scalar) a reader call on the raw value outside any loop, or the raw value
+				// wrapped as a one-element []interface{} that the same loop ranges over
+				listForm, scalarForm := false, false
+				var listVar types.Object
+				ast.Inspect(pd.Body, func(n ast.Node) bool {
+					rs, ok := n.(*ast.RangeStmt)
+					if !ok {
+						return true
+					}
+					tv, ok := info.Types[rs.X]
+					if !ok || tv.Type.String() != "[]interface{}" {
+						return true
+					}
+					vid, _ := rs.Value.(*ast.Ident)
+					ast.Inspect(rs.Body, func(m ast.Node) bool {
+						if c, ok := m.(*ast.CallExpr); ok && len(c.Args) >= 1 && vid != nil {
+							if f := calleeFunc(info, c); f != nil && pm.G.Funcs[f.Name()] == pm.ElemDeser {
+								if a, ok := c.Args[0].(*ast.Ident); ok && info.ObjectOf(a) == info.ObjectOf(vid) {
+									listForm = true
+									if id, ok := rs.X.(*ast.Ident); ok {
+										listVar = info.ObjectOf(id)
+									}
+								}
+							}
+						}
+						return true
+					})
+					return true
+				})
+				ast.Inspect(pd.Body, func(n ast.Node) bool {
+					if as, ok := n.(*ast.AssignStmt); ok && len(as.Lhs) == 1 && len(as.Rhs) == 1 && listVar != nil {
+						if l, ok := as.Lhs[0].(*ast.Ident); ok && info.ObjectOf(l) == listVar {
+							if cl, ok := as.Rhs[0].(*ast.CompositeLit); ok && len(cl.Elts) == 1 {
+								if tv, ok := info.Types[cl]; ok && tv.Type.String() == "[]interface{}" {
+									scalarForm = true
+								}
+							}
+						}
+					}
+					return true
+				})
+				// a reader call outside every range statement
+				var inRange func(n ast.Node, depth int)
+				_ = inRange
+				for _, c := range calls {
+					enclosed := false
+					ast.Inspect(pd.Body, func(n ast.Node) bool {
+						if rs, ok := n.(*ast.RangeStmt); ok && rs.Pos() <= c.Pos() && c.End() <= rs.End() {
+							enclosed = true
+						}
+						return true
+					})
+					if !enclosed {
+						scalarForm = true
+					}
+				}
+				okR4 = listForm && scalarForm
+				why4 = fmt.Sprintf("reader applied to each element of a list: %v; reader applied to a lone value: %v", listForm, scalarForm)
+			}
+			res.check(okR4, "C01-R4", pm.G.Dir, S.pos(pd), "a list and a scalar are read through the same element reader", why4)
 			cn := pm.Container.Obj().Name()
 			if sfd := pm.G.Funcs["("+cn+").Serialize"]; sfd != nil {
 				okOne := false
@@ -557,6 +620,27 @@ func checkC01(res *Result) {
 			}
 			return true
 		})
+		if !deletesNested {
+			// the removal may live in a function of the package that Serialize calls (a named
+			// recursive helper instead of the recursive closure)
+			ast.Inspect(fd.Body, func(n ast.Node) bool {
+				if c, ok := n.(*ast.CallExpr); ok {
+					if f := calleeFunc(info, c); f != nil && f.Pkg() == S.Root.Types {
+						if cd := S.funcDecl[f]; cd != nil && cd.Body != nil {
+							ast.Inspect(cd.Body, func(m ast.Node) bool {
+								if d, ok := m.(*ast.CallExpr); ok && isIdentNamed(d.Fun, "delete") && len(d.Args) == 2 {
+									if s, ok := strLit(info, d.Args[1]); ok && s == "@context" {
+										deletesNested = true
+									}
+								}
+								return true
+							})
+						}
+					}
+				}
+				return true
+			})
+		}
 		res.check(setsCtx && deletesNested && callsCtx, "C01-R5", "streams.Serialize", S.pos(fd), "@context is installed from JSONLDContext() and nested @context members are removed", fmt.Sprintf("sets: %v, from JSONLDContext: %v, deletes nested: %v", setsCtx, callsCtx, deletesNested))
 	} else {
 		res.undecided("C01-R5", "streams.Serialize", "-", "function found", "missing")
